@@ -242,6 +242,18 @@ def gen_pedigree(r, name=None, directed=False):
             reads[i] = rd; counts[i] = ct
             if not directed and r.random() < 0.15:                      # a pedigree member without alignment file: NaN rows, count 0
                 reads[i] = np.nan; counts[i] = 0; no_reads.append(i)
+    deep = False
+    if informative and not directed and N > 1 and r.random() < 0.15:
+        # deep data, and one parent whose reads are those of another genotype (a mislabelled sample): its own reads rule out, by
+        # hundreds of log units, alleles its progeny demand - the full conditional still weighs likelihood x inheritance exactly
+        deep = True
+        counts = counts * r.choice([20, 40])
+        par_idx = sorted({int(p_) for p_ in parents.ravel() if p_ >= 0})
+        if par_idx:
+            i = r.choice(par_idx)
+            other = [haps[r.randrange(n)] for _ in range(int(ploidy[i]))]
+            rd, ct = G.gen_reads(r, n_all, n_reads, haps=other, gap=0.1, style="encoded", zero_counts=False)
+            reads[i] = rd; counts[i] = ct * r.choice([20, 40])
     permuted = False
     if not directed and N > 1 and r.random() < 0.4:                    # children may precede their parents
         perm = list(range(N)); r.shuffle(perm)                          # new index of old i
@@ -260,7 +272,7 @@ def gen_pedigree(r, name=None, directed=False):
                 lam=np.ascontiguousarray(lam), err=np.ascontiguousarray(err), state=np.ascontiguousarray(state),
                 haps=np.array(haps, dtype=np.int64), freqs=freqs, reads=np.ascontiguousarray(reads), counts=np.ascontiguousarray(counts),
                 informative=informative, n=n, N=N, mp=mp, zero_err=zero_err, some_zero=some_zero, permuted=permuted,
-                cache=typed_cache() if r.random() < 0.5 else None, multi=max(n_all) > 2, n_reads=n_reads)
+                cache=typed_cache() if r.random() < 0.5 else None, multi=max(n_all) > 2, n_reads=n_reads, deep=deep)
 
 
 def directed_hexaploid(r):
@@ -700,12 +712,16 @@ def run(tier, replay=None):
                             chk.violation("gibbs_probabilities raises on a well-formed pedigree state", case, "C18/gibbs/raises")
                     continue
                 # ---- oracle: exact full conditional of the joint (implementation's own pmf and likelihood)
-                ws = []
+                ljs = []
                 for x in range(P["n"]):
                     s2 = st.copy(); s2[t, k] = x
-                    lj = impl_log_joint(P, s2)
-                    ws.append(math.exp(lj) * fact_prod(s2[t, :P["ploidy"][t]].tolist()) if math.isfinite(lj) else 0.0)
+                    ljs.append((impl_log_joint(P, s2), fact_prod(s2[t, :P["ploidy"][t]].tolist())))
+                m_ = max((lj for lj, _ in ljs if math.isfinite(lj)), default=0.0)      # (deep data: weights relative to the largest)
+                ws = [math.exp(lj - m_) * fpx if math.isfinite(lj) else 0.0 for lj, fpx in ljs]
                 tot = sum(ws)
+                if tot > 0 and vec_tag(impl) == "nan" and not isinstance(model, str):
+                    chk.violation("Gibbs vector is NaN although the full conditional of the joint pedigree posterior exists",
+                                  {**case, "exact_conditional": [w / tot for w in ws]}, "C18/gibbs/conditional")
                 if tot > 0 and not isinstance(vec_tag(impl), str):
                     dev = max(abs(impl[x] - ws[x] / tot) for x in range(P["n"]))
                     if not (dev <= 1e-8):
@@ -722,7 +738,7 @@ def run(tier, replay=None):
                 cur = int(st[t, k])
                 if not (abs(sum(impl) - 1.0) <= 1e-9) or not (min(impl) >= -1e-12):
                     chk.violation("MH vector is not a probability vector", case, "C18/mh/sum")
-                pio = math.exp(impl_log_joint(P, st)) * fact_prod(st[t, :P["ploidy"][t]].tolist())
+                lj_cur = impl_log_joint(P, st)
                 for x in range(P["n"]):
                     if x == cur:
                         continue
@@ -735,8 +751,10 @@ def run(tier, replay=None):
                     back, _ = call_probs(f, P, s2, t, k)
                     if isinstance(vec_tag(back), str):
                         continue
-                    fa = pio * impl[x]
-                    fb = math.exp(lj) * fact_prod(s2[t, :P["ploidy"][t]].tolist()) * back[cur]
+                    # flows relative to the larger of the two joints (deep data: the joints themselves underflow)
+                    m_ = max(lj_cur, lj)
+                    fa = math.exp(lj_cur - m_) * fact_prod(st[t, :P["ploidy"][t]].tolist()) * impl[x] if math.isfinite(lj_cur) else 0.0
+                    fb = math.exp(lj - m_) * fact_prod(s2[t, :P["ploidy"][t]].tolist()) * back[cur]
                     if not (fa == fa and fb == fb) or (max(fa, fb) > 1e-280 and abs(fa - fb) > 1e-8 * max(fa, fb)):   # NaN flows fail too
                         chk.violation("MH move violates detailed balance w.r.t. the joint pedigree posterior",
                                       {**case, "allele": x, "pi*K_forward": fa, "pi*K_backward": fb}, "C18/mh/db")
@@ -799,7 +817,7 @@ def run(tier, replay=None):
         if not math.isfinite(l0):
             continue
         fp = lambda s: math.prod(fact_prod(s[i, :P["ploidy"][i]].tolist()) for i in {p, q})
-        ratio = (math.exp(l1 - l0) * fp(s3) / fp(st)) if math.isfinite(l1) else 0.0
+        ratio = (math.exp(min(l1 - l0, 700.0)) * fp(s3) / fp(st)) if math.isfinite(l1) else 0.0     # (deep data: the ratio is capped at 1 anyway)
         exact = min(1.0, ratio)
         if not C.close(impl, exact, rel=1e-8, abs_=1e-12):
             masks_differ = ((P["counts"][p] > 0) != (P["counts"][q] > 0)).any()
